@@ -817,8 +817,9 @@ def check_c05(tier, seed, log=print):
                     break
     nt, dis, bad_defs = tie_pass(run, r, modes=('n', 'p', 't'))
     report_tie(run, r, bad_defs, covered=fails)
-    from props_lib import source_read_differential
+    from props_lib import source_read_differential, bump_bounds_probe
     sr = source_read_differential(run, tier, seed, log)
+    run.coverage['spans_after_bump'] = bump_bounds_probe(run, tier, log)
     run.coverage.update(dict(evaluations=n + tn + sr.get('evaluations', 0), distinct_nontrivial=len(nontriv) + sr.get('distinct_nontrivial', 0),
                              rule='streams of default vs forbid_unsafe builds compared on every request (inputs are prefixes of a longer allocation whose tail repeats the input, so an over-read changes the result); '
                                   'real read traces (verif_trace) checked: a read hits iff offset+size <= len; non-trivial = input length < 8 or within 1 of a multiple of 8; '
